@@ -410,8 +410,8 @@ fn collect_batch(delay_us: u64, res: similari::trackers::batch::PredictionBatchR
         crate::sched::log_event('R', r.0);
         got.push(r);
     }
-    // the monitor decrements may still be in flight: wait for them before reading the log
-    for _ in 0..200 {
+    // the monitor decrements may still be in flight: wait for them (up to 5 s on a loaded machine) before reading the log
+    for _ in 0..25000 {
         let done = crate::sched::EVENTS.lock().unwrap().iter().filter(|e| e.1 == 'M').count();
         if done >= got.len() {
             break;
